@@ -263,6 +263,15 @@ def anchors(first_tid):
         dict(op="res1d", cls="pinhole", q=lin, sigma=[2 * x for x in lin], note="sigma = 2q"),
         dict(op="res1d", cls="pinhole", q=lin, sigma=[0.0] * 10, note="zero width"),
         dict(op="res1d", cls="slit", q=lin, L=0.0, W=0.0, note="zero widths"),
+        # data merged from two settings: the smallest / largest q occurs twice (the step at that end is zero)
+        dict(op="res1d", cls="pinhole", q=[lin[0]] + lin, sigma=[0.05 * x for x in [lin[0]] + lin],
+             note="first point repeated"),
+        dict(op="res1d", cls="pinhole", q=lin + [lin[-1]], sigma=[0.3 * x for x in lin + [lin[-1]]],
+             note="last point repeated"),
+        dict(op="res1d", cls="pinhole", q=[lin[0]] + lin + [lin[-1]], sigma=[0.05 * x for x in [lin[0]] + lin + [lin[-1]]],
+             note="both ends repeated"),
+        dict(op="direct", dkind="pinhole", q=[lin[0]] + lin + [lin[-1]], sigma=[0.1 * x for x in [lin[0]] + lin + [lin[-1]]],
+             intercept=2.5, slope=3.0, calls=[[2.0, 0.25], [3.0, 0.7]], note="both ends repeated through DirectModel"),
         # a shifted centre q + k*W/30 falls exactly on a bin edge
         dict(op="res1d", cls="slit",
              q=[1e-05, 1.25e-05, 2.5e-05, 3.7500000000000003e-05, 5.75e-05, 6.25e-05, 8.25e-05, 8.75e-05, 9e-05, 0.00011],
